@@ -409,7 +409,7 @@ def op_scoped(seval, args):
 
 def op_allscopes(seval, args):
     assert args, 'all-scopes: exactly one argument required'
-    assert isinstance(args[0], WList), 'all-scopes: argument must be a valid expression'
+    assert isinstance(args[0], (Symbol, int, str, WList, list, float)), 'all-scopes: argument must be a valid expression'
     res = []
     prev_scope = seval.scope
     prev_cs = seval.global_environment.read('CS')
